@@ -40,6 +40,14 @@ def applicable(prog, lang) -> bool:
                 return False
             if it["v"] == "nextbrace" and tr["fam"] == "indent":
                 return False  # no such layout in Python (would duplicate "plain")
+            if it["v"] == "arrow" and lang not in ("JavaScript", "TypeScript"):
+                return False
+            if it["v"] == "throws" and lang != "Java":
+                return False
+            if it["v"] == "lineabove" and lang in ("JavaScript", "TypeScript"):
+                return False
+        if k == "C" and it["v"] == "try" and lang == "C":
+            return False
         if k in "FKCA":
             st.append(k)
         elif k == "X":
@@ -67,12 +75,13 @@ def render(prog, lang, layout=0):
     def L(s):
         out.append(" " * (W * ind) + s)
 
-    def mark_end():
-        # the line just written is (so far) the last code line of every open function
+    def mark_end(code_len=None):
+        # the line just written is (so far) the last code line of every open function; code_len = length of the
+        # line without a trailing comment
         for k, rec in stack:
             if rec is not None:
                 rec["end_line"] = len(out)
-                rec["end_col"] = len(out[-1]) + 1
+                rec["end_col"] = (code_len if code_len is not None else len(out[-1])) + 1
 
     if tr["wrap"]:
         out.append("class Outer {")
@@ -85,6 +94,9 @@ def render(prog, lang, layout=0):
             incls = bool(stack) and stack[-1][0] == "K"
             base = W * ind
             rec = dict(item=idx, name=name, start_line=len(out) + 1, alt_start_col=None)
+            if v == "lineabove":
+                L({"Python": "@deco", "Java": "@Override", "C#": "[Obsolete]", "C++": "template <typename T>", "C": "static int"}[lang])
+                rec["start_line"] = len(out) + 1
             if py:
                 pre = "async " if v == "prefix" else ""
                 rec["start_col"] = base + len(pre) + 1
@@ -105,7 +117,11 @@ def render(prog, lang, layout=0):
                 rec["start_col"] = base + len(pre) + 1
                 if pre and not incls:
                     rec["alt_start_col"] = base + 1
-                if v == "multi":
+                if v == "arrow":
+                    rec["start_col"] = base + 1
+                    rec["alt_start_col"] = None
+                    L(f"const {name} = ({ty('a')}, {ty('b')}) => {{")
+                elif v == "multi":
                     L(f"{pre}{kw}{name}({ty('a')},")
                     L(f"    {ty('b')}){rt} {{")
                 elif v == "nextbrace":
@@ -119,8 +135,13 @@ def render(prog, lang, layout=0):
                 pre = "static " if v == "prefix" else ""
                 if lang in ("Java", "C#"):
                     pre = ("public static " if v == "prefix" else "public ") if (incls or not stack) else pre
-                rec["start_col"] = base + len(pre) + len("int ") + 1
-                if v == "multi":
+                rtype = "" if (v == "lineabove" and lang == "C") else "int "
+                rec["start_col"] = base + len(pre) + len(rtype) + 1
+                if v == "throws":
+                    L(f"{pre}int {name}(int a, int b) throws Exception, Error {{")
+                elif v == "lineabove":
+                    L(f"{pre}{rtype}{name}(int a, int b) {{")
+                elif v == "multi":
                     L(f"{pre}int {name}(int a,")
                     L("        int b) {")
                 elif v == "nextbrace":
@@ -130,6 +151,7 @@ def render(prog, lang, layout=0):
                     L(f"{pre}int {name}(int a, S b = {{1, 2}}) {{")
                 else:
                     L(f"{pre}int {name}(int a, int b) {{")
+            rec["variant"] = v
             funcs.append(rec)
             stack.append(("F", rec))
             mark_end()
@@ -140,13 +162,21 @@ def render(prog, lang, layout=0):
             mark_end()
             ind += 1
         elif k == "C":
-            L("if a:" if py else "if (a) {")
+            if v == "loop":
+                L("while a:" if py else "while (a) {")
+            elif v == "try":
+                L("try:" if py else "try {")
+            else:
+                L("if a:" if py else "if (a) {")
             stack.append(("C", None))
             mark_end()
             ind += 1
         elif k == "E":
             ind -= 1
-            L("else:" if py else "} else {")
+            if v == "try":
+                L("except Exception:" if py else {"C++": "} catch (...) {", "C#": "} catch (Exception e) {", "Java": "} catch (Exception e) {"}.get(lang, "} catch (e) {"))
+            else:
+                L("else:" if py else "} else {")
             mark_end()
             ind += 1
         elif k == "A":
@@ -158,7 +188,9 @@ def render(prog, lang, layout=0):
             t, rec = stack[-1]
             ind -= 1
             if not py:
-                if t == "A":
+                if t == "F" and rec.get("variant") == "arrow":
+                    L("};")
+                elif t == "A":
                     L("};" if lang == "C++" else "});")
                 elif t == "K" and lang == "C++":
                     L("};")
@@ -185,14 +217,25 @@ def render(prog, lang, layout=0):
                         L(f"{snm}{scount} = {lit};")
                     else:
                         decl = "" if infn else ("string " if lang == "C#" else "String " if lang == "Java" else "char *")
-                        L(f"{decl}{snm}{scount} = {lit};")
+                        L(f"{decl}{snm}{scount} = {lit}; c{scount} = '{{';" if infn else f"{decl}{snm}{scount} = {lit};")
                 else:
+                    tail = ""
+                    mid = ""
+                    if v == "trailing":
+                        tail = "  # note { (" if py else "  // note { ("
+                    elif v == "inline":
+                        if py:
+                            tail = "  # inline ) }"
+                        else:
+                            mid = "/* note ( { */ "
                     if py:
-                        L(f"{xnm}{scount} = call({scount})")
+                        L(f"{xnm}{scount} = call({scount}){tail}")
+                        mark_end(len(out[-1]) - len(tail))
+                        continue
                     elif jsl:
-                        L(f"{xnm}{scount} = call({scount});")
+                        L(f"{xnm}{scount} = {mid}call({scount});{tail}")
                     else:
-                        L(f"int {xnm}{scount} = call({scount});" if not infn else f"{xnm}{scount} = call({scount});")
+                        L((f"int {xnm}{scount} = {mid}call({scount});" if not infn else f"{xnm}{scount} = {mid}call({scount});") + tail)
                 mark_end()
         elif k == "M":
             scount += 1
